@@ -936,8 +936,12 @@ class Emitter:
         hdr = ['/* generated by ir2c.py -- do not edit */', '#include "vp_rt.h"']
         hdr += [d for (_, d) in self.aggs.values()]
         hdr += protos
-        self.dispatch[('void(uint64_t)', None)] = ('vp_call_void_ptr', VOID, [PTR], None)
-        disp = self.emit_dispatchers() + '\n' + self.emit_exc_dtor_dispatcher()
+        alias = ''
+        if ('void(uint64_t)', None) in self.dispatch:
+            alias = 'void vp_call_void_ptr(uint64_t fn, uint64_t a0) { %s(fn, a0); }\n' % self.dispatch[('void(uint64_t)', None)][0]
+        else:
+            self.dispatch[('void(uint64_t)', None)] = ('vp_call_void_ptr', VOID, [PTR], None)
+        disp = self.emit_dispatchers() + '\n' + alias + self.emit_exc_dtor_dispatcher()
         init = self.emit_init()
         hdr += ['VP_THREAD_LOCAL uint8_t %s;' % g for g in self.guards]
         return '\n'.join(hdr) + '\n' + '\n'.join(self.dispatch_protos()) + '\n' + '\n'.join(body) + '\n' + disp + '\n' + init
@@ -1286,10 +1290,13 @@ class Emitter:
                     continue
                 if fsig == sig:
                     cands.append(fn)
+                elif slot is None and len(f.params) < len(argtys) and \
+                        fsig == self.sig_key(ret, argtys[:len(f.params)]):
+                    cands.append(fn)  # callee ignores trailing arguments (e.g. libstdc++'s noop coroutine resume: void() called as void(void*))
             for fn in cands:
                 if cid(fn) == '__cxa_pure_virtual':
                     continue
-                call = '%s(%s)' % (self.fname(fn), args)
+                call = '%s(%s)' % (self.fname(fn), ', '.join('a%d' % j for j in range(len(self.mod.funcs[fn].params))))
                 self.extern_used.setdefault(fn, True)
                 if rt == 'void':
                     out.append('  if (fn == %dUL) { %s; return; }' % (self.fn_ids[fn], call))
